@@ -89,7 +89,8 @@ classes = [
                meth('actFlag', args=['bool']), meth('actPtr', args=['TSource*']), meth('poke')],
         methods=[meth('twice', 'int', ['int']), meth('label', 'QString', [])]),
     cls('TSub', supers=['TSource'], props=[rw('xval', 'int')], signals=chg('xval')),
-    cls('TOther', supers=['QWidget'], props=[rw('ival', 'int')], signals=chg('ival')),
+    cls('TOther', supers=['QWidget'], props=[rw('ival', 'int'), rw('val', 'int'), rw('subVal', 'int'), rw('title', 'QString')],
+        signals=chg('ival', 'val', 'subVal', 'title')),
 ]
 
 out = os.path.join(os.path.dirname(os.path.abspath(__file__)), 'verif_metatypes.json')
